@@ -743,6 +743,14 @@ impl CypherTranslator {
                     } else {
                         Some(self.translate_expression(&args[0])?)
                     };
+                    // count(expr) counts the rows where expr is not null; only
+                    // count() / count(*) counts every row
+                    let function = if function == AggregateFunction::Count && expression.is_some()
+                    {
+                        AggregateFunction::CountNonNull
+                    } else {
+                        function
+                    };
                     // Extract percentile parameter for percentile functions
                     let percentile = if matches!(
                         function,
